@@ -7,7 +7,7 @@ EXTENDS PT_Dialect, Json, IOUtils
 Events == ndJsonDeserialize(IOEnv.TRACE_FILE)
 VARIABLE i
 Init == i = 1
-Conventions == {"identifier-quote", "string-as-identifier", "placeholder", "boolean", "array", "interval", "pagination", "groupby-alias", "string-escape"}
+Conventions == {"identifier-quote", "string-as-identifier", "placeholder", "boolean", "array", "interval", "pagination", "groupby-alias", "string-escape", "set-operand-brackets"}
 Slim(toks) == [k \in DOMAIN toks |-> [t |-> toks[k].t, v |-> toks[k].v]]
 Verdict(e) ==
     LET R == DOMAIN e.r
